@@ -1,6 +1,7 @@
 //! tcss-verif library: everything the checks are made of (see /verif/DESIGN.md).
 
 pub mod case;
+pub mod clock;
 pub mod driver;
 pub mod engine;
 pub mod fuzz;
